@@ -1,11 +1,178 @@
-"""Bounded stand-ins: Kani harnesses compiled into the real crate (see DESIGN.md 3.4)."""
-UNITS = []
+"""Bounded stand-ins: Kani harnesses compiled into the real crate through the cfg(kani) include hooks (DESIGN.md 3.4).
+
+Every unit states its bound; results are reported under `bounded_checks`, never as discharged proof obligations.
+"""
+import os
+import re
+import resource
+import shutil
+import subprocess
+import time
+
+HERE = os.path.dirname(os.path.abspath(__file__))
+VERIF = os.path.dirname(HERE)
+
+# harness name -> unit description
+UNITS = [
+    # K01: helpers used by the Verus tier through assumed contracts
+    dict(unit="K01.set_scope", harness="k01_set_scope", tags=["C05", "C19"], quick=True, complete=False,
+         bound="3 items, every ledger (Unparsed/Conflict/Parsed)^3, every scope and every new scope"),
+    dict(unit="K01.adjacently_available_from", harness="k01_adjacently_available_from", tags=["C19"], quick=True, complete=False,
+         bound="3 items, every ledger, every scope, every start"),
+    dict(unit="K01.adjacent_scope", harness="k01_adjacent_scope", tags=["C19"], quick=True, complete=False,
+         bound="2 states of 3 items, every pair of ledgers and scopes"),
+    dict(unit="K01.pick_winner", harness="k01_pick_winner", tags=["C07"], quick=True, complete=False,
+         bound="2 states of 3 items, every pair of ledgers"),
+    dict(unit="K01.save_conflicts", harness="k01_save_conflicts", tags=["C07", "C05"], quick=True, complete=False,
+         bound="2 states of 3 items, every pair of ledgers, every winner index"),
+    # K03: tokenizer
+    dict(unit="K03.split_ascii_len2", harness="k03_split_ascii_len2", tags=["C02"], quick=True, complete=False,
+         bound="all ASCII strings of length 2"),
+    dict(unit="K03.split_ascii_len3", harness="k03_split_ascii_len3", tags=["C02"], quick=False, complete=False,
+         bound="all ASCII strings of length 3"),
+    dict(unit="K03.split_nonascii_name_eq_value", harness="k03_split_nonascii_name_eq_value", tags=["C02"], quick=True, complete=False,
+         bound="`-ñ=v` and `--ñ=v`, v any single byte"),
+    dict(unit="K03.split_short_attached_value_with_eq", harness="k03_split_short_attached_value_with_eq", tags=["C02"], quick=False, complete=False,
+         bound="`-cw=v`, c ASCII alphanumeric, w ASCII, v any byte"),
+    # K08 / K09: documentation leaves
+    dict(unit="K08.escape_special_one_fragment", harness="k08_escape_special_one_fragment", tags=["C16"], quick=True, complete=False,
+         features="docgen", bound="one Special/SpecialNoNewline fragment of 2 ASCII bytes, both apostrophe modes"),
+    dict(unit="K08.escape_line_start_inherited", harness="k08_escape_line_start_inherited", tags=["C16"], quick=False, complete=False,
+         features="docgen", bound="two fragments (Unescaped|Special then Special), 2+1 free ASCII bytes"),
+    dict(unit="K08.escape_spaces_control_line_argument", harness="k08_escape_spaces_control_line_argument", tags=["C16"], quick=True, complete=False,
+         features="docgen", bound="one Spaces fragment of 2 ASCII bytes"),
+    dict(unit="K09.change_style_all_pairs", harness="k09_change_style_all_pairs", tags=["C16"], quick=True, complete=True,
+         features="docgen", bound="all 8 x 8 style pairs (loop free, full domain)"),
+]
 
 
-def run_units(repo, units, work, tier):
-    return []
+def _limits():
+    # 24 GB address space per CBMC process
+    try:
+        resource.setrlimit(resource.RLIMIT_AS, (24 << 30, 24 << 30))
+    except Exception:
+        pass
+
+
+def run_units(repo, units, work, tier, jobs=4, timeout_s=None):
+    """Runs the harnesses of `units` with one `cargo kani` invocation per feature set; returns one dict per unit."""
+    os.makedirs(work, exist_ok=True)
+    target = os.environ.get("VERIF_KANI_TARGET", os.path.join(VERIF, "out", "kani-target"))
+    timeout_s = timeout_s or (600 if tier == "quick" else 1500)
+    results = []
+    by_feat = {}
+    for u in units:
+        by_feat.setdefault(u.get("features", ""), []).append(u)
+    for feat, us in by_feat.items():
+        cmd = ["cargo", "kani", "--target-dir", target, "--output-format=terse", "-j", str(jobs),
+               "-Z", "unstable-options", "--harness-timeout", "%ds" % timeout_s]
+        if feat:
+            cmd += ["--features", feat]
+        for u in us:
+            cmd += ["--harness", u["harness"]]
+        env = dict(os.environ, PACAK_BPAF_VERIF_DIR=VERIF, CARGO_NET_OFFLINE="true")
+        env.pop("RUSTFLAGS", None)
+        t0 = time.time()
+        try:
+            p = subprocess.run(cmd, cwd=repo, capture_output=True, text=True, env=env, preexec_fn=_limits,
+                               timeout=timeout_s * (len(us) // jobs + 2) + 300)
+            out = p.stdout + "\n" + p.stderr
+            rc = p.returncode
+        except subprocess.TimeoutExpired as e:
+            out = (e.stdout or "") + "\n" + (e.stderr or "") if isinstance(e.stdout, str) else "timeout"
+            rc = -9
+        wall = time.time() - t0
+        with open(os.path.join(work, "kani_%s.log" % (feat or "default")), "w") as f:
+            f.write(" ".join(cmd) + "\n" + out)
+        compile_failed = "error: could not compile" in out or "Failed to execute cargo" in out
+        for u in us:
+            r = dict(unit=u["unit"], harness=u["harness"], bound=u["bound"], complete=u.get("complete", False), wall_s=round(wall, 1),
+                     cmd=" ".join(cmd))
+            blk = _block(out, u["harness"])
+            if compile_failed:
+                r.update(status="undecided", why="the crate does not compile under cfg(kani): " + _first_error(out))
+            elif blk is None:
+                r.update(status="undecided", why="no result for this harness (rc=%s)" % rc)
+            else:
+                m = re.search(r"Verification Time: ([0-9.]+)s", blk)
+                if m:
+                    r["wall_s"] = float(m.group(1))
+                m = re.search(r"\*\* (\d+) of (\d+) failed", blk)
+                if m:
+                    r["checks"] = int(m.group(2))
+                cov = re.search(r"\*\* (\d+) of (\d+) cover properties satisfied", blk)
+                if "VERIFICATION:- SUCCESSFUL" in blk:
+                    if cov and int(cov.group(1)) < int(cov.group(2)):
+                        r.update(status="undecided", why="vacuity: a cover! property is unsatisfiable")
+                    else:
+                        r.update(status="pass")
+                elif "VERIFICATION:- FAILED" in blk:
+                    if re.search(r"timed out|CBMC timed out|out of memory|Killed|unwinding assertion", blk, re.I) and not re.search(r"Failed Checks: (?!.*unwinding)", blk):
+                        r.update(status="undecided", why="timeout / memory / unwinding bound: " + blk[-300:])
+                    else:
+                        fc = re.findall(r"Failed Checks: (.*)", blk)
+                        r.update(status="fail", failed_check=_slug(fc[0]) if fc else "assertion", output_tail=blk[-3000:])
+                else:
+                    r.update(status="undecided", why="harness did not finish: " + blk[-300:])
+            results.append(r)
+        # concrete playback for failing harnesses (second pass, one by one)
+        for r in results:
+            if r.get("status") == "fail" and "playback" not in r and r["harness"] in [u["harness"] for u in us]:
+                pcmd = ["cargo", "kani", "--target-dir", target, "--output-format=terse", "-Z", "concrete-playback",
+                        "--concrete-playback=print", "--harness", r["harness"]]
+                if feat:
+                    pcmd += ["--features", feat]
+                try:
+                    pp = subprocess.run(pcmd, cwd=repo, capture_output=True, text=True, env=env, preexec_fn=_limits, timeout=timeout_s + 300)
+                    m = re.search(r"```\s*\n(.*?)```", pp.stdout, re.S)
+                    if m:
+                        r["playback"] = m.group(1)
+                        vals = re.findall(r"//\s*(-?\d+(?:[a-z0-9]*)?)\s*\n\s*vec!\[([^\]]*)\]", m.group(1))
+                        r["concrete_input"] = [{"value": a, "bytes": b.strip()} for a, b in vals]
+                except subprocess.TimeoutExpired:
+                    pass
+    return results
+
+
+def _block(out, harness):
+    m = re.search(r"Checking harness \S*::%s\.\.\.(.*?)(?=Checking harness |Manual Harness Summary|\Z)" % re.escape(harness), out, re.S)
+    return m.group(1) if m else None
+
+
+def _first_error(out):
+    m = re.search(r"(error(\[E\d+\])?: .*(\n.*){0,6})", out)
+    return m.group(1)[:600] if m else out[-600:]
+
+
+def _slug(s):
+    return re.sub(r"[^A-Za-z0-9]+", "_", s).strip("_")[:60]
 
 
 def replay(repo, rp, work):
-    print("no kani units yet")
-    return 2
+    """re-run the harness named in a replay file; print the concrete playback test when one exists"""
+    us = [u for u in UNITS if u["harness"] == rp.get("harness")]
+    if not us:
+        print("unknown harness", rp.get("harness"))
+        return 2
+    if rp.get("concrete_playback_test"):
+        print("concrete playback unit test produced by Kani for the failing run:\n" + rp["concrete_playback_test"])
+    res = run_units(repo, us, work, "thorough", jobs=1)
+    for r in res:
+        print("harness %s on the current tree: %s" % (r["harness"], r["status"]))
+        if r["status"] == "fail":
+            print(r.get("output_tail", "")[-1500:])
+            return 1
+        if r["status"] != "pass":
+            return 2
+    return 0
+
+
+if __name__ == "__main__":
+    import json
+    import sys
+
+    sel = sys.argv[1:]
+    us = [u for u in UNITS if not sel or any(s in u["harness"] for s in sel)]
+    res = run_units("/repo", us, os.path.join(VERIF, "out", "kani-dev"), "thorough")
+    for r in res:
+        print("%-45s %-9s %6.1fs checks=%s %s" % (r["harness"], r["status"], r["wall_s"], r.get("checks"), r.get("why", r.get("failed_check", ""))[:200]))
